@@ -43,7 +43,7 @@ def cases(tier, seed):
     if not q:
         for s in T5:
             add(fn='randmio_und_connected', kind='conn', n=5, sup=s, support=c01.und_from_edges(5, T5[s]), iters=1, weight=60, shard_depth=8)
-    for s, m in ([('ring4', 1), ('sc5', 1), ('sc5b', 1)] if q else [(s, m) for s in ('ring4', 'sc5', 'sc5b', 'ring4_chord') for m in (1, 2)]):
+    for s, m in ([('ring4', 1), ('sc5', 1), ('sc5b', 1), ('sc5c', 1), ('sc5d', 1)] if q else [(s, m) for s in ('ring4', 'sc5', 'sc5b', 'sc5c', 'sc5d', 'ring4_chord') for m in (1, 2)]):
         add(fn='randmio_dir_connected', kind='conn', n=4, sup=s, support=c01.dir_from_arcs(4, c01.D4[s]), iters=m, weight=10 * m, shard_depth=8 if m > 1 else None)
     for p in c01._perms(4, seed, 2 if q else 8):
         extra = dict(draws=1 + 4 * 3, fork_int=True, shard_depth=24) if q else dict(fork_int=True, shard_depth=24)
@@ -63,10 +63,20 @@ def cases(tier, seed):
         und = fn == 'latmio_und'
         S = c01.und_from_edges(4, c01.U4[s]) if und else c01.dir_from_arcs(4, c01.D4[s])
         for p in c01._perms(4, seed, 3 if q else 12):
-            for dk in ('D_circular_w_symbolic', 'D_symbolic_w_one'):
-                add(fn=fn, kind='cost', n=4, sup=s, support=S, iters=1, perm=p, dmode=dk, weight=40, fork_int=(len(c01.U4[s] if und else c01.D4[s]) >= 3),
+            for dk in ('D_circular_w_symbolic', 'D_symbolic_w_one', 'D_generic_w_symbolic'):
+                add(fn=fn, kind='cost', n=4, sup=s, support=S, iters=1, perm=p, dmode=dk, weight=40, fork_int=True,
                     shard_depth=10 if not q and len(c01.U4[s] if und else c01.D4[s]) >= 3 else None,
                     name='%s/cost/%s/%s/perm%s' % (fn, s, dk, ''.join(map(str, p))))
+    # lattice cost of the connected latticisers (sparse connected inputs; attempts bounded by the draw budget in quick)
+    for p in ([[0, 2, 1, 3], [1, 3, 0, 2]] if q else [[0, 2, 1, 3], [1, 3, 0, 2]] + c01._perms(4, seed, 6)):
+        extra = dict(draws=1 + 4 * 3, any_sign=True) if q else dict(any_sign=True)
+        for dk in ('D_circular_w_symbolic', 'D_generic_w_symbolic'):
+            add(fn='latmio_und_connected', kind='cost', n=4, sup='P4', support=c01.und_from_edges(4, c01.U4['P4']), iters=1, perm=p, dmode=dk, weight=150, fork_int=True,
+                shard_depth=24, name='latmio_und_connected/cost/P4/%s/perm' % dk + ''.join(map(str, p)), **extra)
+    if not q:
+        for p in c01._perms(4, seed, 4):
+            add(fn='latmio_dir_connected', kind='cost', n=4, sup='sc5', support=c01.dir_from_arcs(4, c01.D4['sc5']), iters=1, perm=p, dmode='D_circular_w_symbolic', weight=300, fork_int=True,
+                shard_depth=24, name='latmio_dir_connected/cost/sc5/D_circular_w_symbolic/perm' + ''.join(map(str, p)))
     # mask
     for s, ms in ([('2K2', 1), ('2K2', 2), ('P4', 1)] if q else [(s, ms) for s in ('2K2', 'P4', 'C4', 'paw') for ms in (1, 2)]):
         add(fn='randomize_graph_partial_und', kind='mask', n=4, sup=s, support=c01.und_from_edges(4, c01.U4[s]), iters=ms, draws=3 * ms + 2, weight=5 * 4 ** ms,
@@ -145,9 +155,10 @@ def body_reject(case, M):
 def body_cost(case, M):
     fn, n, sup, dmode = case['fn'], case['n'], case['support'], case['dmode']
     directed = fn not in c01.UND
-    if dmode == 'D_circular_w_symbolic':
-        Dv = circ(n)
-        def weights(): return c01.sym_weights(M, n, sup, directed, lo=0)
+    if dmode in ('D_circular_w_symbolic', 'D_generic_w_symbolic'):
+        # generic: a caller-supplied symmetric distance matrix with pairwise different entries (mis-paired products show)
+        Dv = circ(n) if dmode == 'D_circular_w_symbolic' else [[0, 1, 4, 2], [1, 0, 3, 5], [4, 3, 0, 6], [2, 5, 6, 0]]
+        def weights(): return c01.sym_weights(M, n, sup, directed, lo=None if case.get('any_sign') else 0)
     else:
         Dv = [[0] * n for _ in range(n)]
         for a in range(n):
@@ -155,7 +166,7 @@ def body_cost(case, M):
                 Dv[a][b] = Dv[b][a] = M.real('D_%d_%d' % (a, b), lo=0, hi=8)
         def weights(): return [[(1 if sup[a][b] else 0) for b in range(n)] for a in range(n)]
     vals = weights()
-    if dmode != 'D_circular_w_symbolic':
+    if dmode == 'D_symbolic_w_one':
         vals = [[float(v) if not M.symbolic else v for v in row] for row in vals]
     state = {'prev': None}
     def cost(R): return ssum(sc.mul(Dv[a][b], cell(R, a, b)) for a in range(n) for b in range(n))
